@@ -18,7 +18,8 @@ TRUSTED = [
 ]
 ASSUMES = ['repeat counts are ints or inf; pattern arguments are numbers, bools, lists, tuples or patterns of the listed classes',
            'arithmetic on list/tuple values is outside the model (treated as an error)',
-           'Pseed-wrapped random patterns are checked on the implementation only (same sequence per stream), not modelled']
+           'Pseed-wrapped Prand / Pxrand / Pwhite(int bounds): the draws are an oracle, recorded from the seeded random.Random instances (a result is a function of the seed and of the earlier randrange calls on that generator); int seeds only',
+           'ListPattern constructors refuse an empty list (checked on every run); a list emptied afterwards is modelled for Pseq / Pser / Place']
 
 INFN = 10 ** 9
 FUEL = 40000
@@ -754,10 +755,10 @@ def correspond(ctx):
     c.count('model_out_of_fuel', len(fuel_out))
     c.evaluations = len(items)
     c.rule = ('random expressions over Pseq Pser Pn Place Plen Pdrop Pstutter Pclump Pflatten Pdiff Pconst Pcollect Pselect '
-              'Preject Pwrap Punop Pbinop Pnarop Pif Pseries Pgeom Pswitch Pswitch1 Ptuple Pslide (depth <= %d, finite and inf '
+              'Preject Pwrap Punop Pbinop Pnarop Pif Pseries Pgeom Pswitch Pswitch1 Ptuple Pslide Pseed(Prand|Pxrand|Pwhite) (depth <= %d, finite and inf '
               'repeats, ints / dyadic floats / bools / lists / tuples) plus directed boundary expressions and a malformed '
               'stream, built as REAL sc3 objects; observed with next(iter(p)) x n, stream.next() x n, stream.all(), two '
-              'interleaved streams of one object, and a late third stream; model = run of the operational semantics by '
+              'interleaved streams of one object, and a late third stream; the draws of every seeded generator are recorded and given to the model as its oracle table; model = run of the operational semantics by '
               'vm_compute; exact comparison of values (type and value) and of the ending (stop / exception / more). '
               'non-trivial = depth >= 2 and at least two values produced' % (4 if ctx.quick else 6))
     c.samples = [{'expr': show(k['expr']), 'impl': o.get('iter')} for k, o in list(zip(cases, out))[60:66]]
@@ -828,6 +829,52 @@ def shrink_candidates(e):
     return cands
 
 
+def random_laws(ctx):
+    """Draw-free documented laws of the seeded random patterns, probed on the implementation:
+    Prand/Pxrand yield `repeats` items of the list per seed, Pxrand never the same item twice in
+    a row, Pwhite(lo, hi) ints stay within the bounds and yields `length` values."""
+    I = lambda x: V(vi(x))
+    exprs, meta = [], []
+    for _ in range(ctx.n(40, 200)):
+        size = ctx.rng.randint(2, 5)
+        vals = ctx.rng.sample(range(-20, 20), size)
+        r = ctx.rng.randint(1, 12)
+        seed = ctx.rng.randint(0, 999)
+        kind = ctx.rng.choice(['Prand', 'Pxrand', 'Pxrand', 'Pwhite'])
+        if kind == 'Pwhite':
+            lo, hi = sorted(ctx.rng.sample(range(-10, 10), 2))
+            body = ['Pwhite', I(lo), I(hi), r]
+            meta.append((kind, [lo, hi], r))
+        else:
+            body = [kind, [I(v) for v in vals], r]
+            meta.append((kind, vals, r))
+        exprs.append(['Pseed', ['Pseq', [I(seed)], 1, 0], body])
+    out = run_impl(ctx, [{'expr': e, 'n': 40, 'finite': False, 'sched': []} for e in exprs])
+    found = []
+    for e, (kind, vals, r), o in zip(exprs, meta, out):
+        if not o.get('iter') or o['iter'][1] != 'stop':
+            why = 'did not end normally: %s' % (o.get('iter') and o['iter'][1])
+            xs = []
+        else:
+            xs = [int(v[1]) if v[0] == 'i' else None for v in o['iter'][0]]
+            why = None
+            if len(xs) != r:
+                why = 'yields %d values, documented %d' % (len(xs), r)
+            elif kind == 'Pwhite' and not all(x is not None and vals[0] <= x <= vals[1] for x in xs):
+                why = 'value outside the bounds'
+            elif kind != 'Pwhite' and not all(x in vals for x in xs):
+                why = 'value not in the list'
+            elif kind == 'Pxrand' and any(a == b for a, b in zip(xs, xs[1:])):
+                why = 'the same item twice in a row'
+        if why:
+            found.append(Failure('search', 'seeded %s breaks its documented law (%s) on %s: got %s' % (kind, why, show(e), xs),
+                                 signature='C13:%s.law' % kind, found_input=True, theorem='den_sound_all_classes',
+                                 replay={'expr': e, 'show': show(e), 'impl': o.get('iter'), 'law': why}))
+            if len(found) >= 2:
+                break
+    return found
+
+
 def search(ctx, failures):
     g = Gen(ctx.rng, 3)
     exprs = [f.replay['expr'] for f in failures if f.replay.get('expr')]
@@ -857,4 +904,6 @@ def search(ctx, failures):
                     'how': 'PYTHONPATH=/repo python: import sc3; sc3.init("nrt"); list(islice(iter(%s), 24))' % show(e)}))
         if len(found) >= 5:
             break
+    if any('seed' in (f.replay.get('show') or '') for f in failures) or not found:
+        found.extend(random_laws(ctx))
     return found
